@@ -3,16 +3,20 @@
 
    What is kept from the code, as it is:
    - leaf pages carry their cells in slot order, the header field free_end (space of deleted
-     cells is NOT reclaimed: delete_cell only removes the slot; frag_bytes is a u8 so
-     should_compact can never become true) and frag_bytes; all "is there room" decisions are the
+     cells is not reclaimed - delete_cell only removes the slot, and frag_bytes is a u8 so
+     should_compact can never become true - except that a leaf whose LAST cell is deleted gets its
+     whole cell area back, commit 09348e1) and frag_bytes; all "is there room" decisions are the
      byte-size decisions of the code (cell = key + varint(len) + value, 8-byte slot, 24-byte
      leaf header, 16-byte interior header, 12-byte interior slot, 16384-byte pages);
    - split_leaf: insertion position, duplicate check, 90% / 50% start, the two `mid` loops, the
-     clamps, rebuild of both halves by insert_cell (fails when a half does not fit);
-   - propagate_split / insert_into_interior (both branches, by slot index) / split_interior /
-     create_new_root, page numbers handed out by allocate_page in the order of the code;
-   - the rightmost-leaf hint and both fast paths; delete without rebalancing; the three update
-     cases; cursor_first / cursor_seek / cursor_last, advance, prev with find_prev_leaf.
+     clamps, the refusal (before any page is touched) when a half would not fit (commit 9c96190),
+     rebuild of both halves by insert_cell;
+   - propagate_split / insert_into_interior (both branches, by slot index) / split_interior with
+     the split point chosen by bytes, nearest to the middle (commit a0471f9) / create_new_root, page numbers handed out by allocate_page in the order of the code;
+   - the rightmost-leaf hint and both fast paths (an empty hinted leaf is not accepted, a847df1);
+     delete without rebalancing; the three update cases (a growing update first checks room for
+     the whole new cell, 0e115d7); cursor_first / cursor_seek / cursor_last, advance with
+     skip_empty_leaves, prev with find_prev_leaf and find_rightmost_nonempty (8f0490a).
    What is abstracted (stated in tools/props.d/C28.json):
    - a page is its decoded content, the tree is an inductive tree whose nodes carry their page
      number; the leaf chain (next_leaf) is the in-order sequence of the leaves (C29 checks this
@@ -52,7 +56,7 @@ Definition remove_at {A} (i : nat) (l : list A) : list A := firstn i l ++ skipn 
 Definition replace_at {A} (i : nat) (x : A) (l : list A) : list A := firstn i l ++ x :: skipn (S i) l.
 Definition sumz (l : list Z) : Z := fold_right Z.add 0 l.
 
-Inductive err := ELeafFull | EIntFull | ESepDup | EPanic | EFuel | ECorrupt.
+Inductive err := EZeroSep | ELeafFull | EIntFull | ESepDup | EPanic | EFuel | ECorrupt.
 
 Section BT.
 Variable V : Type.
@@ -102,7 +106,11 @@ Definition leaf_delete (l : leaf) (i : nat) : leaf :=
   match nth_error (lcells l) i with
   | None => l
   | Some e =>
-      let l1 := mkLeaf (lid l) (remove_at i (lcells l)) (lfe l) (sat_u8 (lfrag l + (csize e) mod 256)) in
+      let rest := remove_at i (lcells l) in
+      let l1 := match rest with
+                | [] => mkLeaf (lid l) rest PAGE 0          (* the last cell is gone: the whole cell area is free again *)
+                | _ => mkLeaf (lid l) rest (lfe l) (sat_u8 (lfrag l + (csize e) mod 256))
+                end in
       if should_compact l1 then compact_leaf l1 else l1
   end.
 
@@ -142,6 +150,7 @@ Inductive ires :=
 | IOk (t : tree) (np : Z)
 | ISplit (l : tree) (sep : key) (r : tree) (np : Z)
 | IDup (np : Z)
+| IFull (np : Z)          (* clean refusal: Err before any tree page was touched (a page number is used up) *)
 | IErr (e : err).
 
 Definition split_leaf (rm : bool) (l : leaf) (e : entry) (np : Z) : ires :=
@@ -159,9 +168,11 @@ Definition split_leaf (rm : bool) (l : leaf) (e : entry) (np : Z) : ires :=
   match nth_error all mid with
   | None => IErr EPanic
   | Some sepc =>
+      (* `ensure!(left_size <= page_capacity && right_size <= page_capacity)`: the same two inequalities
+         that decide whether the rebuilt halves fit *)
       match build_leaf (lid l) (firstn mid all), build_leaf np (skipn mid all) with
       | Some L, Some R => ISplit (Leaf L) (fst sepc) (Leaf R) np'
-      | _, _ => IErr ELeafFull
+      | _, _ => IFull np'
       end
   end.
 
@@ -239,14 +250,34 @@ Fixpoint build_kids (acc todo : list kid) : err + list kid :=
       else inl EIntFull
   end.
 
+(* the split point: among the m with both halves fitting a page, the one nearest to len/2 (the first on ties) *)
+Definition absdiff (a b : nat) : nat := ((a - b) + (b - a))%nat.
+Fixpoint best_mid (sizes : list Z) (total : Z) (half m : nat) (left : Z) (best : option nat) : option nat :=
+  match sizes with
+  | [] => best
+  | sz :: rest =>
+      let right := total - left - sz in
+      let best' :=
+        if (left <=? PAGE - INT_START) && (right <=? PAGE - INT_START) then
+          match best with
+          | Some b => if (absdiff m half <? absdiff b half)%nat then Some m else best
+          | None => Some m
+          end
+        else best in
+      best_mid rest total half (S m) (left + sz) best'
+  end.
+
 Definition split_interior (id : Z) (kids1 : list kid) (right1 : tree) (s : key) (R : tree) (np : Z) : ires :=
   let seps := map fst kids1 in
   let chs := map snd kids1 in
   let p := ppos s kids1 in
   let seps' := insert_at p s seps in
   let chs' := if (p =? length chs)%nat then chs ++ [right1] else insert_at (S p) R chs in
-  let mid := (length seps' / 2)%nat in
+  let sizes := map (fun k : key => klen k + ISLOT) seps' in
   let lastc := if (p =? length chs' - 1)%nat then R else right1 in
+  match best_mid sizes (sumz sizes) (length seps' / 2)%nat O 0 None with
+  | None => IErr EIntFull          (* "separators too large": Err AFTER the level below was split *)
+  | Some mid =>
   match nth_error seps' mid, nth_error chs' mid with
   | Some prom, Some lright =>
       match build_kids [] (combine (firstn mid seps') (firstn mid chs')),
@@ -256,6 +287,7 @@ Definition split_interior (id : Z) (kids1 : list kid) (right1 : tree) (s : key) 
       | _, inl e => IErr e
       end
   | _, _ => IErr EPanic
+  end
   end.
 
 (* insert_into_interior after child number i (page unchanged, now holding L) split off R *)
@@ -263,7 +295,7 @@ Definition int_ins (id : Z) (kids : list kid) (right : tree) (i : nat) (L : tree
   let '(kids1, right1) := set_child kids right i L in
   if klen s + ISLOT <=? ifree kids then
     match last (map (fun x => Some (fst x)) kids) None with
-    | None => IErr EPanic            (* cell_count() as usize - 1 on an interior page without separators *)
+    | None => IErr EZeroSep          (* cell_count() as usize - 1 on an interior page without separators *)
     | Some lastk =>
         if kleb lastk s then
           match ipos s kids1 with
@@ -296,7 +328,9 @@ Fixpoint ins (h : nat) (m : imode) (rm : bool) (t : tree) (e : entry) (np : Z) :
           match ins h' m (rm && (i =? length kids)%nat) (child_at kids r i) e np with
           | IOk c np' => let '(k2, r2) := set_child kids r i c in IOk (Node id k2 r2) np'
           | ISplit L s R np' => int_ins id kids r i L s R np'
-          | other => other
+          | IDup np' => IDup np'
+          | IFull np' => IFull np'
+          | IErr er => IErr er
           end
       end
   end.
@@ -390,8 +424,7 @@ Definition leaf_update (l : leaf) (k : key) (v : V) : ures :=
             let freed := (varint_len ol + ol) - (varint_len nl + nl) in
             UTrue (mkLeaf (lid l) (replace_at i (fst old, v) (lcells l)) (lfe l) (sat_u8 (lfrag l + freed mod 256)))
           else
-            let inc := Z.max 0 ((nl + varint_len nl) - (ol + varint_len ol)) in
-            if inc <=? Z.max 0 (lfree l) then
+            if csize (k, v) <=? Z.max 0 (lfree l) then       (* room for the whole new cell, not for the increase *)
               let l1 := leaf_delete l i in
               if negb (lguard l1) then UPanic else
               if csize (k, v) + SLOT <=? lfree l1 then
@@ -433,18 +466,14 @@ Definition leaf_get (l : leaf) (k : key) : option V :=
 
 (* ---------------------------------------------------------------- cursors *)
 Definition lempty (l : leaf) : bool := match lcells l with [] => true | _ => false end.
-(* advance across leaf boundaries: stops (exhausted) at the first empty leaf; returns what was
-   enumerated and the leaves never visited *)
-Fixpoint fwd_walk (ls : list leaf) : list entry * list leaf :=
+Definition flatl (ls : list leaf) : list entry := flat_map lcells ls.
+(* a cursor standing at index `start` of the first leaf of ls, then key / value / advance until exhausted:
+   skip_empty_leaves moves over leaves without (remaining) cells, so the enumeration is the rest of the
+   first leaf followed by all cells of the following leaves *)
+Definition scan_from (ls : list leaf) (start : nat) : list entry :=
   match ls with
-  | [] => ([], [])
-  | l :: r => if lempty l then ([], r) else let '(es, rest) := fwd_walk r in (lcells l ++ es, rest)
-  end.
-Definition scan_from (ls : list leaf) (start : nat) : list entry * list leaf :=
-  match ls with
-  | [] => ([], [])
-  | l :: r => if (length (lcells l) <=? start)%nat then ([], r)
-              else let '(es, rest) := fwd_walk r in (skipn start (lcells l) ++ es, rest)
+  | [] => []
+  | l :: r => skipn start (lcells l) ++ flatl r
   end.
 Fixpoint seek_leaves (h : nat) (t : tree) (k : key) : list leaf :=
   match t with
@@ -460,7 +489,22 @@ Fixpoint seek_leaves (h : nat) (t : tree) (k : key) : list leaf :=
       end
   end.
 
-Inductive pres := PFound (l : leaf) | PNone | PUp | PErr.
+(* find_rightmost_nonempty: right child first, then the slots from the last to the first *)
+Fixpoint first_some {A B} (f : A -> option B) (l : list A) : option B :=
+  match l with [] => None | x :: r => match f x with Some y => Some y | None => first_some f r end end.
+Fixpoint rnl (h : nat) (t : tree) : option leaf :=
+  match t with
+  | Leaf l => if lempty l then None else Some l
+  | Node _ kids r =>
+      match h with
+      | O => None
+      | S h' => first_some (rnl h') (r :: rev (map snd kids))
+      end
+  end.
+
+Inductive pres := PFound (l : leaf) | PUp | PErr.
+(* find_prev_leaf: descend by the last key of the current leaf, then pop: at every ancestor the left
+   siblings are searched, nearest first, for their rightmost non-empty leaf *)
 Fixpoint find_prev (h : nat) (t : tree) (nav : key) (cur : Z) : pres :=
   match t with
   | Leaf l => if lid l =? cur then PUp else PErr
@@ -470,17 +514,17 @@ Fixpoint find_prev (h : nat) (t : tree) (nav : key) (cur : Z) : pres :=
       | S h' =>
           let i := cidx nav kids in
           match find_prev h' (child_at kids r i) nav cur with
-          | PUp => match i with
-                   | O => PUp
-                   | S j => let l' := last_leaf (child_at kids r j) in
-                            if lempty l' then PNone else PFound l'
+          | PUp => match first_some (rnl h') (rev (map snd (firstn i kids))) with
+                   | Some l' => PFound l'
+                   | None => PUp
                    end
-          | x => x
+          | PFound l' => PFound l'
+          | PErr => PErr
           end
       end
   end.
-(* cursor_last + prev...: (entries, status) ; status 0 = ended by exhaustion, 1 = stopped at an empty
-   previous leaf, 2 = navigation error, 3 = out of fuel *)
+(* prev ... from the last cell of leaf l: (entries, status); status 0 = ended by exhaustion,
+   2 = navigation error, 3 = out of fuel *)
 Fixpoint bwd_walk (fuel h : nat) (root : tree) (l : leaf) : list entry * Z :=
   let here := rev (lcells l) in
   match fuel with
@@ -491,7 +535,6 @@ Fixpoint bwd_walk (fuel h : nat) (root : tree) (l : leaf) : list entry * Z :=
       | Some nav =>
           match find_prev h root nav (lid l) with
           | PFound l' => let '(es, st) := bwd_walk f h root l' in (here ++ es, st)
-          | PNone => (here, 1)
           | PUp => (here, 0)
           | PErr => (here, 2)
           end
@@ -509,25 +552,25 @@ Inductive op :=
 Inductive out :=
 | RUnit | RBool (b : bool) | RUniq (b : bool) | ROpt (o : option V) | RList (l : list entry) | RErr | RPanic.
 
-(* defect classes raised by the model (0 = none) *)
-Definition F_FWD : Z := 1.      (* forward / seek cursor stops although entries follow *)
-Definition F_BWD : Z := 2.      (* backward cursor stops although entries precede *)
-Definition F_HINT : Z := 3.     (* rightmost-hint fast path puts the entry into a leaf the key does not route to *)
-Definition F_UPD : Z := 4.      (* growing update deletes the entry and then fails *)
-Definition F_LEAFFULL : Z := 5. (* split_leaf: a half does not fit *)
-Definition F_SEPDUP : Z := 6.   (* emptied full leaf split on re-insert of its lower separator *)
-Definition F_INTFULL : Z := 7.  (* split_interior: a half does not fit *)
-Definition F_PANIC : Z := 8.
+(* outcome codes of the model (0 = regular).  F_ZSEP is the one defect class that survives on the repaired
+   tree (finding F-C28-8); the other codes mark branches of the code that Proof/BTree*.v shows unreachable from
+   a well-formed tree (they exist so that the model never hides an error path behind a default). *)
+Definition F_UPD : Z := 4.      (* insert_cell failing after delete_cell inside update *)
+Definition F_LEAFFULL : Z := 5. (* rebuilding a leaf half failing after the size check *)
+Definition F_SEPDUP : Z := 6.   (* "separator key already exists" *)
+Definition F_INTFULL : Z := 7.  (* split_interior: no split point / a half does not fit *)
+Definition F_ZSEP : Z := 8.     (* `cell_count() as usize - 1` on an interior page without separators: panic (overflow checks on) *)
 Definition F_FUEL : Z := 9.
+Definition F_PANIC : Z := 10.   (* any other panic branch *)
 
 Definition err_flag (e : err) : Z :=
   match e with
-  | ELeafFull => F_LEAFFULL | EIntFull => F_INTFULL | ESepDup => F_SEPDUP
+  | EZeroSep => F_ZSEP | ELeafFull => F_LEAFFULL | EIntFull => F_INTFULL | ESepDup => F_SEPDUP
   | EPanic => F_PANIC | EFuel => F_FUEL | ECorrupt => F_PANIC
   end.
-Definition err_out (e : err) : out := match e with EPanic => RPanic | _ => RErr end.
+Definition err_out (e : err) : out := match e with EPanic | EZeroSep => RPanic | _ => RErr end.
 
-(* try_fastpath_insert / try_append_fastpath: Some = Ok(true) *)
+(* try_fastpath_insert / try_append_fastpath: Some = Ok(true).  An empty hinted leaf is not accepted. *)
 Definition fastpath (s : state) (e : entry) : option (err + state) :=
   match hint s with
   | None => None
@@ -535,50 +578,40 @@ Definition fastpath (s : state) (e : entry) : option (err + state) :=
       if (p <? 0) || (npages s <=? p) then None else
       let l := last_leaf (root s) in
       if negb (lid l =? p) then None else
-      let gt_last := match last (map (fun c : entry => Some (fst c)) (lcells l)) None with
-                     | None => true
-                     | Some lk => kltb lk (fst e)
-                     end in
-      if negb gt_last then None else
-      if negb (lguard l) then Some (inl EPanic) else
-      if lfree l <? csize e + SLOT then None else
-      Some (inr (mkState (set_last_leaf (root s) (leaf_put l (length (lcells l)) e)) (npages s) (hint s)))
-  end.
-
-(* the insert that empties into the class F_SEPDUP: routed leaf is empty, has no room, key = lower separator *)
-Definition sepdup_risk (s : state) (e : entry) : bool :=
-  let h := depth (root s) in
-  match route h (root s) (fst e), lower_sep h (root s) None (fst e) with
-  | Some l, Some lo => lempty l && (lfree l <? csize e + SLOT) && keqb lo (fst e)
-  | _, _ => false
+      match last (map (fun c : entry => Some (fst c)) (lcells l)) None with
+      | None => None
+      | Some lk =>
+          if negb (kltb lk (fst e)) then None else
+          if negb (lguard l) then Some (inl EPanic) else
+          if lfree l <? csize e + SLOT then None else
+          Some (inr (mkState (set_last_leaf (root s) (leaf_put l (length (lcells l)) e)) (npages s) (hint s)))
+      end
   end.
 
 Definition slow_insert (m : imode) (s : state) (e : entry) : state * out * Z :=
   let h := depth (root s) in
   let rm := rm_route h (root s) (fst e) in
   let okout := match m with MIine => RUniq true | _ => RUnit end in
-  let risk := if sepdup_risk s e then F_SEPDUP else 0 in
   match ins h m true (root s) e (npages s) with
   | IOk t np =>
-      (mkState t np (if rm then Some (lid (last_leaf t)) else hint s), okout, risk)
+      (mkState t np (if rm then Some (lid (last_leaf t)) else hint s), okout, 0)
   | ISplit L sp R np =>
       match build_kids [] [(sp, L)] with
       | inr kk => let t := Node np kk R in
-                  (mkState t (np + 1) (if rm then Some (lid (last_leaf t)) else hint s), okout, risk)
+                  (mkState t (np + 1) (if rm then Some (lid (last_leaf t)) else hint s), okout, 0)
       | inl er => (s, err_out er, err_flag er)
       end
-  | IDup np => (mkState (root s) np (hint s), match m with MIine => RUniq false | _ => RErr end, risk)
+  | IDup np => (mkState (root s) np (hint s), match m with MIine => RUniq false | _ => RErr end, 0)
+  | IFull np => (mkState (root s) np (hint s), RErr, 0)       (* refused: the tree is untouched *)
   | IErr er => (s, err_out er, err_flag er)
   end.
 
 Definition op_insert (m : imode) (s : state) (e : entry) : state * out * Z :=
   match (match m with MIine => None | _ => fastpath s e end) with
-  | Some (inr s') => (s', RUnit, if rm_route (depth (root s)) (root s) (fst e) then 0 else F_HINT)
+  | Some (inr s') => (s', RUnit, 0)
   | Some (inl er) => (s, err_out er, err_flag er)
   | None => slow_insert m s e
   end.
-
-Definition nonempty_left (ls : list leaf) : bool := existsb (fun l => negb (lempty l)) ls.
 
 Definition step (s : state) (o : op) : state * out * Z :=
   let h := depth (root s) in
@@ -603,24 +636,21 @@ Definition step (s : state) (o : op) : state * out * Z :=
       | Some l => (s, ROpt (leaf_get l k), 0)
       | None => (s, RErr, F_FUEL)
       end
-  | OFwd lim =>
-      let '(es, rest) := scan_from (leaves h (root s)) 0 in
-      (s, RList (firstn lim es), if nonempty_left rest then F_FWD else 0)
+  | OFwd lim => (s, RList (firstn lim (scan_from (leaves h (root s)) 0)), 0)
   | OSeek k lim =>
       let ls := seek_leaves h (root s) k in
       let start := match ls with l :: _ => snd (lfind k (lcells l)) | [] => O end in
-      let '(es, rest) := scan_from ls start in
-      (s, RList (firstn lim es), if nonempty_left rest then F_FWD else 0)
+      (s, RList (firstn lim (scan_from ls start)), 0)
   | OBwd lim =>
-      let l := last_leaf (root s) in
-      if lempty l then
-        (s, RList [], if nonempty_left (leaves h (root s)) then F_BWD else 0)
-      else
-        let '(es, st) := bwd_walk (length (leaves h (root s))) h (root s) l in
-        (s, (if st =? 2 then RErr else RList (firstn lim es)),
-         if st =? 0 then 0 else if st =? 1 then
-           (if (length es <? length (abs h (root s)))%nat then F_BWD else 0)   (* stopped early with entries left *)
-         else if st =? 2 then F_PANIC else F_FUEL)
+      (* cursor_last: the rightmost leaf, or - when deletes emptied it - the rightmost non-empty leaf *)
+      let l0 := last_leaf (root s) in
+      match (if lempty l0 then rnl h (root s) else Some l0) with
+      | None => (s, RList [], 0)
+      | Some l =>
+          let '(es, st) := bwd_walk (length (leaves h (root s))) h (root s) l in
+          (s, (if st =? 2 then RErr else RList (firstn lim es)),
+           if st =? 0 then 0 else if st =? 2 then F_PANIC else F_FUEL)
+      end
   | OReopen hh => (mkState (root s) (npages s) hh, RUnit, 0)
   end.
 
@@ -630,7 +660,7 @@ Fixpoint run (s : state) (ops : list op) : list (out * Z) * state :=
   | o :: r => let '(s', ot, f) := step s o in let '(res, sf) := run s' r in ((ot, f) :: res, sf)
   end.
 
-(* no defect class was reached *)
+(* every operation took a regular branch *)
 Definition all_clear (res : list (out * Z)) : bool := forallb (fun p : out * Z => snd p =? 0) res.
 Fixpoint first_flag (a : list (out * Z)) : Z :=
   match a with [] => 0 | (_, f) :: r => if f =? 0 then first_flag r else f end.
@@ -642,11 +672,11 @@ End BT.
 
 Arguments mkLeaf {V}. Arguments lid {V}. Arguments lcells {V}. Arguments lfe {V}. Arguments lfrag {V}.
 Arguments Leaf {V}. Arguments Node {V}.
-Arguments IOk {V}. Arguments ISplit {V}. Arguments IDup {V}. Arguments IErr {V}.
+Arguments IOk {V}. Arguments ISplit {V}. Arguments IDup {V}. Arguments IFull {V}. Arguments IErr {V}.
 Arguments DOk {V}. Arguments DNotFound {V}. Arguments DErr {V}.
 Arguments UTrue {V}. Arguments UFalse {V}. Arguments ULost {V}. Arguments UPanic {V}.
 Arguments UTOk {V}. Arguments UTLost {V}. Arguments UTErr {V}.
-Arguments PFound {V}. Arguments PNone {V}. Arguments PUp {V}. Arguments PErr {V}.
+Arguments PFound {V}. Arguments PUp {V}. Arguments PErr {V}.
 Arguments OInsert {V}. Arguments OIine {V}. Arguments OAppend {V}. Arguments OUpdate {V}.
 Arguments ODelete {V}. Arguments OGet {V}. Arguments OFwd {V}. Arguments OBwd {V}. Arguments OSeek {V}. Arguments OReopen {V}.
 Arguments RUnit {V}. Arguments RBool {V}. Arguments RUniq {V}. Arguments ROpt {V}. Arguments RList {V}. Arguments RErr {V}. Arguments RPanic {V}.
